@@ -39,7 +39,7 @@ RULE = ('a seeded history masters a valid image of <= ~400 sectors; 24 (quick) /
         'damaged bytes lie inside an object the decoders mapped; distinct = distinct (fault kind, structure/field, value class) triples')
 BUDGET = {'quick': 45, 'thorough': 900}
 PROBES = ['variants_opened', 'open_succeeded', 'open_refused_documented', 'fault:truncate', 'fault:torn-prefix', 'fault:lost-writes', 'fault:zero-sector',
-          'fault:copy-sector', 'fault:stale-sector', 'fault:field', 'fault:field-pair', 'fault:seek-end', 'fault:random-bytes', 'udf_tag_refixed',
+          'fault:copy-sector', 'fault:stale-sector', 'fault:field', 'fault:field-pair', 'fault:seek-end', 'fault:random-bytes', 'fault:alias-dirs', 'fault:struct-extremes', 'udf_tag_refixed',
           'memory_measured', 'images_with_udf', 'images_with_rr', 'images_with_eltorito', 'images_with_hybrid']
 ASSUMPTIONS = ['"promptly" = within 50x the interpreter events of opening the undamaged parent (+2M), a deterministic measure independent of machine load',
                'the 30 s wall watchdog only guards against a stall outside Python code']
@@ -50,7 +50,7 @@ PROFILE = H.Profile('c15', nops=(2, 12), final_restart=False,
                     weights={'add_boot_file': 3, 'add_eltorito': 5, 'add_isohybrid': 3, 'dup_pvd': 0.5, 'restart': 1, 'add_symlink': 8, 'mass_dirs': 0.4, 'mass_files': 0.4},
                     sizes=(0, 1, 100, 2047, 2048, 2049, 6000, 20480))
 
-VALUES = ('zero', 'one', 'max', 'size-1', 'size', 'size+1', 'own', 'other', 'random', 'half', 'plus1', 'minus1')
+VALUES = ('zero', 'one', 'max', 'size-1', 'size', 'size+1', 'own', 'other', 'random', 'half', 'plus1', 'minus1', 'same-kind', 'same-kind')
 
 
 class BudgetExceeded(BaseException):
@@ -81,8 +81,12 @@ def generate(seed, tier='quick'):
             f = [{'kind': 'field', 'pick': r.random(), 'value': r.choice(VALUES), 'both_endian': r.random() < 0.7, 'refix': r.random() < 0.7, 'rnd': r.getrandbits(32)}]
             if r.random() < 0.3:
                 f.append({'kind': 'field', 'pick': r.random(), 'value': r.choice(VALUES), 'both_endian': r.random() < 0.7, 'refix': r.random() < 0.7, 'rnd': r.getrandbits(32)})
-        elif k < 0.9:
+        elif k < 0.865:
             f = [{'kind': 'seek-end'}]
+        elif k < 0.875:
+            f = [{'kind': 'alias-dirs', 'seed': r.getrandbits(32), 'p': r.choice((0.3, 1.0, 1.0)), 'to': r.choice(('child', 'child', 'self', 'parent'))}]
+        elif k < 0.9:
+            f = [{'kind': 'struct-extremes', 'pick': r.random(), 'seed': r.getrandbits(32)}]
         else:
             f = [{'kind': 'random-bytes', 'len': r.choice((0, 1, 2047, 2048, 32768, 34816, 36864, 40000, 65536, 100000)), 'seed': r.getrandbits(32),
                   'keep_pvd_magic': r.random() < 0.5}]
@@ -122,7 +126,7 @@ def field_maps(data, model):
 
 def value_for(kind, width, size_sectors, own, other, rnd):
     mx = (1 << (8 * min(width, 4))) - 1
-    v = {'zero': 0, 'one': 1, 'max': mx, 'size-1': size_sectors - 1, 'size': size_sectors, 'size+1': size_sectors + 1, 'own': own, 'other': other,
+    v = {'zero': 0, 'one': 1, 'max': mx, 'same-kind': other, 'size-1': size_sectors - 1, 'size': size_sectors, 'size+1': size_sectors + 1, 'own': own, 'other': other,
          'random': rnd, 'half': max(1, own // 2), 'plus1': own + 1, 'minus1': max(0, own - 1)}[kind]
     return v & mx
 
@@ -134,6 +138,20 @@ def corrupt_field(ba, f, spec, fields, nsect, ctx):
     rnd = spec['rnd']
     other = fields[rnd % len(fields)][0] // 2048
     kind = spec['value']
+    if kind == 'same-kind':
+        # a pointer (or count) takes the value of another field of the same meaning: misdirected, aliased, looping structures
+        mk = str(meaning).split('@')[0].split('[')[0]
+        peers = [g for g in fields if g[1] == ln and g[0] != off and str(g[2]).split('@')[0].split('[')[0] == mk]
+        if peers:
+            src = peers[rnd % len(peers)]
+            ba[off:off + ln] = ba[src[0]:src[0] + ln]
+            if spec.get('refix'):
+                if mk == 'fid.icb' and refix_udf_tag(ba, off - 20):
+                    ctx.probes['udf_tag_refixed'] += 1
+                elif mk.split('.')[0] in ('tag', 'avdp', 'pd', 'lvd', 'lvid', 'fsd', 'fe', 'ad') and refix_udf_tag(ba, (off // 2048) * 2048):
+                    ctx.probes['udf_tag_refixed'] += 1
+            return '%s=same-kind' % meaning
+        kind = 'other'
     base = {'own': own_sector, 'plus1': cur, 'minus1': cur, 'half': cur}.get(kind, own_sector)
     v = value_for(kind, ln if ln <= 4 else 4, nsect, base if kind in ('plus1', 'minus1', 'half') else own_sector, other, rnd)
     if ln in (1, 2, 4):
@@ -236,6 +254,56 @@ def apply_faults(flist, data, prev_data, writes, fields, boundaries, ctx):
         elif k == 'seek-end':
             file_faults = [Fault('seek', 'seekend_raise', err=22)]
             labels.append('seek-end')
+        elif k == 'alias-dirs':
+            # a hostile rather than a damaged image: in every directory the records of files are turned into further
+            # records of one of its sub-directories (or of the directory itself, or of its parent)
+            import random as _r
+            rr = _r.Random(spec['seed'])
+            try:
+                img = dec_iso.decode(bytes(ba))
+                t = img.trees.get('iso')
+                for d in (t.dirs if t is not None else []):
+                    kids = [c for c in (d.children or [])[2:]]
+                    subs = [c for c in kids if c.is_dir]
+                    tgt = {'child': subs[0] if subs else None, 'self': d, 'parent': d.parent or d}[spec['to']]
+                    if tgt is None:
+                        continue
+                    for c in kids:
+                        if c.is_dir or rr.random() > spec['p']:
+                            continue
+                        ba[c.off + 2:c.off + 6] = tgt.extent.to_bytes(4, 'little')
+                        ba[c.off + 6:c.off + 10] = tgt.extent.to_bytes(4, 'big')
+                        ba[c.off + 10:c.off + 14] = tgt.size.to_bytes(4, 'little')
+                        ba[c.off + 14:c.off + 18] = tgt.size.to_bytes(4, 'big')
+                        ba[c.off + 25] |= 2
+                        touched.append(c.off)
+            except Exception:
+                pass
+            labels.append('alias-dirs:' + spec['to'])
+        elif k == 'struct-extremes' and fields:
+            # every count, size and length of one structure goes to an extreme at once
+            import random as _r
+            rr = _r.Random(spec['seed'])
+            def countlike(m_):
+                return any(w in str(m_).lower() for w in ('num', 'count', 'size', 'len', 'entries', 'n_'))
+            pool = [f for f in fields if countlike(f[2])] or fields
+            f0 = pool[int(spec['pick'] * len(pool)) % len(pool)]
+            sec = f0[0] // 2048
+            n = 0
+            for off, ln, meaning in fields:
+                if off // 2048 != sec or ln not in (1, 2, 4, 8):
+                    continue
+                if not countlike(meaning):
+                    continue
+                w_ = min(ln, 4)
+                choice = rr.choice(('keep', 'zero', 'max', 'max'))
+                if choice == 'keep':
+                    continue
+                val = 0 if choice == 'zero' else (1 << (8 * w_)) - 1
+                ba[off:off + w_] = val.to_bytes(w_, 'little')
+                n += 1
+                touched.append(off)
+            labels.append('struct-extremes:%s' % str(f0[2]).split('.')[0])
         elif k == 'random-bytes':
             import random as _r
             rr = _r.Random(spec['seed'])
